@@ -250,6 +250,10 @@ func vInbound(a *Association, raw []byte) {
 	if vIsShut(a) {
 		return
 	}
+	vSideOf(a) // the cumulative point before this packet, if it is the first
+	if p := (&packet{}); p.unmarshal(false, raw) == nil {
+		vNoteDelivered(a, p.chunks)
+	}
 	if err := a.handleInbound(raw); err != nil {
 		_ = a.close()
 	}
